@@ -8,7 +8,9 @@ Import ListNotations.
    state itself was introduced by the second pass (Add chain deeper than the
    two passes), 232 R3 where the missing Add state was dropped by the scan
    because of a blocker that is itself not in the target;
-   24 unjustified gain; 25 unjustified loss *)
+   24 unjustified gain; 250 unjustified loss, 251 unjustified loss of a state
+   whose Require was missing in the first pass and only supplied by the
+   second parseAdd pass (theorem r4_loss_partial) *)
 Definition tx_codes (sc : schema) (topo : list nat) (t : txrec) : list N :=
   if negb (applies t) then [] else
   let s := tx_active_before t in
@@ -34,7 +36,8 @@ Definition tx_codes (sc : schema) (topo : list nat) (t : txrec) : list N :=
             else 230%N)
          (r3_missing sc mt called s s')
   ++ (if r4_gain_ok sc mt called s s' then [] else [24%N])
-  ++ (if r4_loss_ok sc mt called s s' then [] else [25%N]).
+  ++ map (fun l => if forallb (fun r => mem r p1) (s_require (sget sc l)) then 250%N else 251%N)
+         (filter (fun l => negb (loss_justified sc mt called s s' l)) (diff s s')).
 
 Definition violations (k : hcase) : list N :=
   (* auto transitions with partial acceptance re-resolve; the attribution
